@@ -138,7 +138,7 @@ def main():
             {"name": "E3", "path": "harness/vkit/src/enumerate.rs", "kind_free_text": E3,
              "serves_properties": ["C08", "C09", "C10", "C12", "C14", "C18", "C19"]},
             {"name": "E4", "path": "harness/vloom/src/main.rs", "kind_free_text": "loom 0.7.2: every interleaving of 2-4 real threads over the socket layer's locks (DPOR, preemption bound 3 quick / unbounded thorough), one sub-process per scenario (harness/vkit/src/loomrun.rs); scheduling points are the socket layer's RwLocks (loom's under elvis-core feature verif_loom) and DashMap's shard locks (vendored dashmap with a spin lock over a loom atomic)",
-             "serves_properties": ["C02", "C04"]},
+             "serves_properties": ["C02", "C04", "C15"]},
         ],
         "checks": checks,
         "not_applicable": na,
